@@ -701,8 +701,9 @@ static int _parse_inline(qaconf_t *qaconf, FILE *fp, uint8_t flags,
                 }
             }
 
-            // Remove tailing bracket
+            // Remove tailing bracket and white spaces in front of it
             ENDING_CHAR(sp) = '\0';
+            qstrtrim(sp);
         } else {
             cbdata->otype = QAC_OTYPE_OPTION;
         }
